@@ -192,6 +192,9 @@ func init() {
 }
 
 func c20Case(c *core.C) {
+	if !unprivPreflight(c) {
+		return
+	}
 	plan := c20Plan(c.Tier)
 	sc, size, chunk := c20Scenarios[plan[c.K][0]], c20Sizes[plan[c.K][1]], plan[c.K][2]
 	chunks := 1
@@ -291,6 +294,9 @@ func c20Case(c *core.C) {
 			}
 		case "ERR":
 			c.Cover("outcome:error-return")
+		case "HARNESS":
+			c.Violatef("harness-child", det, "retrieving child: %s", got.msg)
+			return res, false
 		case "DIED":
 			c.Violatef("retriever-died-after-crash:"+sc.name, det, "scenario %s, crash at %s: the retrieving process died instead of returning (%s)", sc.name, label, got.msg)
 			return res, false
@@ -305,6 +311,10 @@ func c20Case(c *core.C) {
 			switch st.kind {
 			case "OK":
 				g2 := runChild(true, "retrieveone", "-dir", wstore, "-idfile", filepath.Join(base, "target.id"))
+				if g2.kind == "HARNESS" {
+					c.Violatef("harness-child", det, "retrieving child: %s", g2.msg)
+					return res, false
+				}
 				if g2.kind != "DOC" || !proto.Equal(g2.doc, laterDoc) {
 					what := g2.kind + " " + g2.msg
 					if g2.kind == "DOC" {
@@ -316,6 +326,9 @@ func c20Case(c *core.C) {
 				c.Cover("outcome:later-store-complete")
 			case "ERR":
 				c.Cover("outcome:later-store-error-return")
+			case "HARNESS":
+				c.Violatef("harness-child", det, "later storing child: %s", st.msg)
+				return res, false
 			default:
 				c.Violatef("store-after-crash-died:"+sc.name, det, "scenario %s, crash at %s: a later Store terminated the process (%s)", sc.name, label, st.msg)
 				return res, false
@@ -327,6 +340,10 @@ func c20Case(c *core.C) {
 				d   *sbom.Document
 			}{{"by1.id", by1}, {"by2.id", by2}} {
 				b := runChild(true, "retrieveone", "-dir", wstore, "-idfile", filepath.Join(base, by.idf))
+				if b.kind == "HARNESS" {
+					c.Violatef("harness-child", det, "retrieving child: %s", b.msg)
+					return res, false
+				}
 				if b.kind != "DOC" || !proto.Equal(b.doc, by.d) {
 					c.Violatef("bystander-affected:"+sc.name, det, "scenario %s, crash at %s: the entry of another identifier changed (%s %s)", sc.name, label, b.kind, b.msg)
 					return res, false
